@@ -99,14 +99,14 @@ impl SourceBlockEncoder {
 }
 ''', label='external callees of Encoder::new')
     u.raw('impl Encoder {')
-    u.fn('src/encoder.rs', 'new', impl='impl Encoder', ret='r', rules=['D1c'],
+    u.fn('src/encoder.rs', 'new', impl='impl Encoder', ret='r', rules=['D1c'], opt_rules=['D4g'],
          requires=['cfg_ok(config)', 'data@.len() == config.transfer_length as int', 'kt_of(config) >= config.num_source_blocks as int'],
          ensures=['r.config == config', 'r.blocks@.len() == config.num_source_blocks as int',
                   'exists |blocks: Seq<(usize, usize)>| blocks_ok(blocks, config) && #[trigger] enc_blocks_ok(r.blocks@, data@, config, blocks, config.num_source_blocks as int)'],
-         subst=[('padded = Vec::from(&data[start..]);', 'padded = verif_vec_from_slice(&data[start..]);', 'S1-vec-from-slice'),
-                ('padded.extend(vec![0; end - data.len()]);', 'verif_extend_vec(&mut padded, vec![0u8; end - data.len()]);', 'S2-extend-vec'),
-                ('let mut block_encoders = vec![];', 'let mut block_encoders: Vec<SourceBlockEncoder> = vec![];', 'type-annotation'),
-                ('let mut padded;', 'let mut padded: Vec<u8>;', 'type-annotation')],
+         opt_subst=[('padded = Vec::from(&data[start..]);', 'padded = verif_vec_from_slice(&data[start..]);', 'S1-vec-from-slice'),
+                    ('padded.extend(vec![0; end - data.len()]);', 'verif_extend_vec(&mut padded, vec![0u8; end - data.len()]);', 'S2-extend-vec'),
+                    ('let mut block_encoders = vec![];', 'let mut block_encoders: Vec<SourceBlockEncoder> = vec![];', 'type-annotation'),
+                    ('let mut padded;', 'let mut padded: Vec<u8>;', 'type-annotation')],
          loops={0: {'spec': ('invariant cfg_ok(config), data@.len() == config.transfer_length as int, kt_of(config) >= config.num_source_blocks as int, blocks_ok(verif_v@, config),'
                              ' block_encoders@.len() == i as int, enc_blocks_ok(block_encoders@, data@, config, verif_v@, i as int),'
                              ' (cached_plan.is_some() ==> plan_for(cached_plan.unwrap(), cached_plan.unwrap().source_symbol_count)),'),
